@@ -144,11 +144,14 @@ class HTTPFile(io.IOBase):
 
     def read(self, size=-1, /):
         """Cache-supported read operation (file object)"""
-        data = self.read_range_cached(self._pos, self._pos + size)
-        if size > 0:
-            self._pos += size
+        if size is None or size < 0:
+            # read until the end of the resource
+            stop = self.length
         else:
-            self._pos = self.length
+            # never request bytes beyond the end of the resource
+            stop = min(self._pos + size, self.length)
+        data = self.read_range_cached(self._pos, stop)
+        self._pos += len(data)
         return data
 
     def read_range_cached(self, start, stop):
@@ -158,6 +161,8 @@ class HTTPFile(io.IOBase):
         chunks when necessary.
         """
         toread = stop - start
+        if toread <= 0:
+            return b""
         # compute the chunk indices between start and stop
         chunk_start = np.int64(start // self._chunk_size)
         chunk_stop = np.int64(stop // self._chunk_size + 1)
